@@ -15,9 +15,11 @@ from checks.var_common import text, other, sweep, MISSING
 PID = 'C15'
 
 TEXTS = ['ab cd_ef', "it's 100%41+x y", '1234567.891', 'Hello big World foo', '', 'a\r\nb\x00c\x1ad',
-         'x%2541 %2B+%20', 'aB_cD', '$1234567', "o''k' '", '12,345.5.5', 'a b c d e f g', '  pad  ']
+         'x%2541 %2B+%20', 'aB_cD', '$1234567', "o''k' '", '12,345.5.5', 'a b c d e f g', '  pad  ',
+         '3.14159', '-1234.56789012', '1e+12345', '.1234567']
 OTHERS = [other('num', '1234567', False), other('num', '0', False), other('num', '12345.5', False),
-          other('none', 'None', True), other('elist', '[]', True)]
+          other('none', 'None', True), other('elist', '[]', True), other('num', '1234.5678', False),
+          other('num', '-98765.4321012', False)]
 
 
 def sweeps(tier):
@@ -25,7 +27,7 @@ def sweeps(tier):
     singles = [[]] + [[m] for m in vc.ALLMODS]
     pairs = [list(c) for c in itertools.combinations(vc.ALLMODS, 2)]
     out = [
-        sweep(tv[:7] if tier == 'quick' else tv, 'SUBSET Modifiers'),
+        sweep((tv[:7] + tv[13:15]) if tier == 'quick' else tv, 'SUBSET Modifiers'),
         sweep(tv + OTHERS, singles, fmts=c04_fmts(), sizes=tuple(range(-1, 9)) + (12, 20, 30), etcs=('default', 'none', 'tilde')),
         sweep(tv + OTHERS + [MISSING], [[], ['upper'], ['html_quote']], fmts=('', 'upper', 'pct'),
               nulls=(False, True), missings=(False, True), sizes=(-1, 2)),
